@@ -513,6 +513,13 @@ class Array(Generic[T], Collection):
             if (child is None or contained_type is not None)
             else get_inner_type(child)
         )
+        if size is not None and (
+            isinstance(size, bool) or not isinstance(size, int) or size < 0
+        ):
+            # The size goes into the type as it is: true, 3.0 or -2 is not a size.
+            raise TypeError(
+                f"The size of an array is a non-negative integer, not {size!r}"
+            )
         self.size = size
         self.child = (
             child if contained_type is not None else getattr(child, "child", None)
